@@ -96,6 +96,8 @@ def replay(rec: Dict[str, Any]) -> List[Tuple[str, Dict[str, Any], str]]:
                 except BaseException:  # noqa: BLE001
                     pass
                 patch = JSONPatch(spelled)
+            elif variant % 3 == 1:
+                patch = JSONPatch(iter(given))          # the operations given as a one-shot iterable
             else:
                 patch = JSONPatch(given)
         elif rec["route"] == "asdicts":
